@@ -19,7 +19,7 @@ MANIFEST = {
         "text": "TLC exhaustively checks, for all command sequences up to a length bound over 2 statement handles x 2 "
                 "parameters (prepare, send-long-data, execute well-formed / truncated in the value of parameter k / "
                 "truncated in the type array / unknown handle / with the types re-used from the previous execution / "
-                "failing at the backend, reset, close), that the statement-table algorithm uses "
+                "failing at the backend / with cursor flags or an iteration count the server may refuse, reset, close), that the statement-table algorithm uses "
                 "for every execution exactly the values of that packet plus the long data sent for that statement "
                 "since its previous execute/reset, isolates statements, refuses unknown/closed handles and leaves "
                 "nothing behind after a failed execute (properties stated on the history of client commands); a "
@@ -87,7 +87,7 @@ def nontrivial(c):
             return True
         if e["c"] == "prepare":
             touched.discard(e["h"])
-        elif e["c"] in ("long", "reset") or (e["c"] == "exec" and e["res"] in ("malformed", "backend-error")):
+        elif e["c"] in ("long", "reset") or (e["c"] == "exec" and e["res"] in ("malformed", "backend-error", "may-refuse")):
             touched.add(e["h"])
         elif e["c"] == "exec" and e["res"] == "ok" and (e["h"] in touched or e.get("ty") == "reused"):
             return True
@@ -190,7 +190,7 @@ def run(ctx):
     # 3. binding self-test case: a corrupted expectation must be flagged by the harness (same harness run)
     bad = {"np": 2, "iseed": 7, "selftest": True, "cmds": [
         {"c": "prepare", "h": 1, "res": "ok"},
-        {"c": "exec", "h": 1, "pk": ["val", "val"], "mal": 0, "ty": "sent", "fault": False, "res": "ok",
+        {"c": "exec", "h": 1, "pk": ["val", "val"], "mal": 0, "ty": "sent", "fault": False, "hdr": "plain", "res": "ok",
          "used": [{"k": "null"}, {"k": "val", "tag": [2, 2]}]}]}   # the specification says used[1] = <<2,1>>
     cf.add(bad)
 
